@@ -11,7 +11,7 @@ SCENARIOS = {
     "C14": [("heap", "sim.heapsim", "run", 1)],
     "C09": [("twin", "sim.c09", "run", 5), ("readers", "sim.c09", "run_readers", 1)],
     "C11": [("files", "sim.c11", "run_files", 2), ("files_faults", "sim.c11", "run_files_faults", 2),
-            ("store", "sim.c11", "run_store", 1)],
+            ("store", "sim.c11", "run_store", 1), ("files_deep", "sim.c11", "run_files_deep", 1)],
 }
 
 
@@ -32,13 +32,34 @@ def get_fn(prop, scenario):
     raise KeyError((prop, scenario))
 
 
-def execute(prop, scenario, tape, tier="quick", keep_events=False):
+PRISTINE_SCENARIOS = {("C11", "files_deep")}
+
+
+def execute(prop, scenario, seed=None, values=None, tier="quick", keep_events=False):
+    """One run. Scenarios that depend on first-use state inside a dependency are executed in
+    a fresh fork of the pristine zygote (see pristine.py); everything else in this process."""
+    from . import pristine
+    if (prop, scenario) in PRISTINE_SCENARIOS and not pristine.STATE["in_child"]:
+        return pristine.run_in_pristine_child((prop, scenario),
+                                              {"seed": seed, "values": values, "tier": tier,
+                                               "keep_events": keep_events})
+    pristine.ensure_zygote()          # while this process is still pristine
+    return execute_direct(prop, scenario, seed=seed, values=values, tier=tier,
+                          keep_events=keep_events)
+
+
+def execute_direct(prop, scenario, seed=None, values=None, tier="quick", keep_events=False):
     """Returns a result dict; never raises for oracle violations."""
+    from . import pristine
+    pristine.STATE["runs_executed"] += 1
+    tape = Tape(values=values) if values is not None else Tape(seed=seed)
     ctx = core.Ctx(tape, prop, scenario, tier=tier, keep_events=keep_events)
     fn = get_fn(prop, scenario)
     res = {"prop": prop, "scenario": scenario, "violation": None, "error": None,
            "discard": False}
     import gc
+    import warnings
+    saved_filters = list(warnings.filters)
     gc.collect()
     gc.disable()        # cyclic GC timing depends on process history; finalizers (a __del__ that
     try:                # closes a handle) must run at deterministic points only (refcounting)
@@ -52,6 +73,9 @@ def execute(prop, scenario, tape, tier="quick", keep_events=False):
         res["error"] = traceback.format_exc()
     finally:
         gc.enable()
+        warnings.filters[:] = saved_filters     # whatever a run did to them stays in that run
+        if hasattr(warnings, "_filters_mutated"):
+            warnings._filters_mutated()
     res.update(digest=ctx.digest(), sched_digest=ctx.sched_digest(), nsched=ctx.nsched,
                ndeviate=ctx.ndeviate, steps=ctx.steps, probes=dict(ctx.probes),
                faults=dict(ctx.faults), counts=dict(ctx.counts), sample=ctx.sample,
@@ -63,12 +87,11 @@ def execute(prop, scenario, tape, tier="quick", keep_events=False):
 def run_seeded(prop, index, verif_seed, tier="quick", keep_events=False):
     scenario = scenario_for(prop, index)
     run_seed = derive_seed(verif_seed, prop, scenario, index)
-    tape = Tape(seed=run_seed)
-    res = execute(prop, scenario, tape, tier=tier, keep_events=keep_events)
+    res = execute(prop, scenario, seed=run_seed, tier=tier, keep_events=keep_events)
     res["run_seed"] = run_seed
     res["index"] = index
     return res
 
 
 def run_tape(prop, scenario, values, tier="quick", keep_events=False):
-    return execute(prop, scenario, Tape(values=values), tier=tier, keep_events=keep_events)
+    return execute(prop, scenario, values=list(values), tier=tier, keep_events=keep_events)
